@@ -28,6 +28,27 @@ structure Summ (c : Symbol) (occ : List Symbol) : Prop where
 
 theorem TypeLe.refl (t : TermType) : TypeLe t t := Or.inl rfl
 
+instance (a b : TermType) : Decidable (TypeLe a b) := by unfold TypeLe; infer_instance
+
+/-! Facts about the enum order, re-checked against the reflected `Generated.typeValues` by `decide`. -/
+theorem typeLe_of_endogenous {c : TermType} : TypeLe .endogenous c → c = .endogenous := by
+  cases c <;> decide
+theorem typeLe_of_parameter {c : TermType} : TypeLe .parameter c → c = .parameter := by
+  cases c <;> decide
+theorem typeLe_of_error {c : TermType} : TypeLe .error c → c = .error := by
+  cases c <;> decide
+theorem typeLe_of_exogenous {c : TermType} : TypeLe .exogenous c → c = .exogenous ∨ c = .endogenous := by
+  cases c <;> decide
+theorem typeLe_to_exogenous {s : TermType} : TypeLe s .exogenous → s ≠ .endogenous := by
+  cases s <;> decide
+theorem typeLe_indexed {s c : TermType} : TypeLe s c → isIndexed s = true → isIndexed c = true := by
+  cases s <;> cases c <;> decide
+theorem typeLe_conflict {a b c : TermType} : TypeLe a c → TypeLe b c → a ≠ b →
+    isVarKind a = true ∧ isVarKind b = true := by
+  cases a <;> cases b <;> cases c <;> decide
+theorem TypeLe.antisymm {a b : TermType} : TypeLe a b → TypeLe b a → a = b := by
+  cases a <;> cases b <;> decide
+
 theorem TypeLe.trans {a b c : TermType} (h1 : TypeLe a b) (h2 : TypeLe b c) : TypeLe a c := by
   rcases h1 with rfl | ⟨ha, hb, hab⟩
   · exact h2
